@@ -11,7 +11,7 @@ T_CLASS = [
     ("VmhdBox", 28, 4, "q"), ("SmhdBox", 24, 4, "q"), ("SttsBox", 40, 6, "q"), ("CttsBox", 40, 6, "q"),
     ("StssBox", 32, 8, "q"), ("StszBox", 36, 8, "q"), ("StcoBox", 32, 8, "q"),
     ("Co64Box", 40, 6, "q"), ("ElstBox", 64, 7, "q"), ("MehdBox", 28, 4, "q"), ("TrexBox", 40, 4, "q"),
-    ("MfhdBox", 24, 4, "q"), ("TfhdBox", 48, 4, "q"), ("TfdtBox", 28, 4, "q"), ("TrunBox", 48, 12, "q"), ("TrunBox", 32, 8, "q"),
+    ("MfhdBox", 24, 4, "q"), ("TfhdBox", 48, 4, "q"), ("TfdtBox", 28, 4, "q"), ("TrunBox", 48, 12, "q"), ("TrunBox", 32, 8, "t"), ("TrunBox", 24, 6, "q"),
     ("Tx3gBox", 54, 4, "q"), ("VpccBox", 28, 4, "q"), ("Vp09Box", 114, 4, "t"),
 ]
 # (type, buffer bytes, unwind, [(size, tier)...]) -- concrete sizes, all >= the fixed part: with a
